@@ -231,17 +231,32 @@ def cross_val_predict(ck, prog):
     val = res.operand(t["args"][2])
     # idx = (next(enumerate(iter(I1))) as Some).0.1 ; val = get(P, (next(enumerate(iter(I1))) as Some).0.0)
     problems = []
-    if not (idx[0] == "field" and idx[2] == "1"):
-        problems.append(f"index `{render(idx)[:80]}` is not the element component of an enumerate item")
-    item = idx[1] if idx[0] == "field" else None
-    en = calls_in(idx, "Iterator::enumerate")
-    if not en or not split_component(1)(peel(en[0][2][0])):
-        problems.append("the scatter does not iterate the test component I1 of the split")
+    indexed = idx[0] == "idx" and split_component(1)(peel(idx[1]))     # form B: I1[i] with i in 0..len(I1)
+    if indexed:
+        item = None
+        k = idx[2]
+        rng = None
+        if k[0] == "field" and k[2] == "0" and k[1][0] == "variant" and k[1][1][0] == "call" and k[1][1][1].endswith("Iterator::next"):
+            from sa.prov import alts as _alts
+            rng = [a for a in _alts(k[1][1][2][0]) if a[0] == "agg" and a[1].endswith("Range::Range")]
+        d = dim_of(rng[0][2][1]) if rng else None
+        if not (rng and rng[0][2][0] == ("int", 0) and d and d[0] == "len" and split_component(1)(peel(d[1]))):
+            problems.append(f"index position `{render(k)[:80]}` does not range over 0..len(I1)")
+    else:
+        if not (idx[0] == "field" and idx[2] == "1"):
+            problems.append(f"index `{render(idx)[:80]}` is not the element component of an enumerate item")
+        item = idx[1] if idx[0] == "field" else None
+        en = calls_in(idx, "Iterator::enumerate")
+        if not en or not split_component(1)(peel(en[0][2][0])):
+            problems.append("the scatter does not iterate the test component I1 of the split")
     if not (val[0] == "call" and val[1].endswith("BaseVector::get")):
         problems.append(f"value `{render(val)[:80]}` is not an element of the prediction vector")
     else:
         pos = val[2][1]
-        if not (pos[0] == "field" and pos[2] == "0" and item is not None and pos[1] == item):
+        if indexed:
+            if pos != idx[2]:
+                problems.append(f"position `{render(pos)[:80]}` differs from the position used to index I1")
+        elif not (pos[0] == "field" and pos[2] == "0" and item is not None and pos[1] == item):
             problems.append(f"position `{render(pos)[:80]}` is not the counter of the same enumerate item as the index")
         if not is_pred_on(strip_try(val[2][0]), 1):
             problems.append(f"prediction vector `{render(val[2][0])[:120]}` is not predict(take(x, I1, 0)) of the fold's estimator")
@@ -361,65 +376,81 @@ def kfold_polarity(ck, prog):
     rule = "E2c-polarity"
     inst = "KFoldIter::next: (train, test) = (mask false, mask true) over one enumeration"
     try:
-        c0 = prog.one(r"^<model_selection::kfold::KFoldIter as std::iter::Iterator>::next::\{closure#0\}$")
         nxt = prog.one(r"^<model_selection::kfold::KFoldIter as std::iter::Iterator>::next$")
     except AnchorError as e:
         ck.violation(rule, inst, "KFoldIter::next", "", expected="anchor exists", found=f"anchor vanished: {e}")
         return
-    res = Resolver(c0)
-    ret = res.local(0)
-    site = f"{c0.loc[0]}:{c0.loc[1]}"
+    # the pair may be built in `next` itself or in a closure mapped over the popped mask
+    bodies, stack = [nxt], list(prog.closures_of.get(nxt.path, []))
+    while stack:
+        c = stack.pop()
+        bodies.append(c)
+        stack.extend(prog.closures_of.get(c.path, []))
+    cand = None
+    for bd in bodies:
+        rs = Resolver(bd)
+        for i, j, s in bd.stmts():
+            r = s["r"] if s["k"] == "assign" else None
+            if r and r["k"] == "agg" and r["ak"] == "tuple" and len(r["ops"]) == 2:
+                comps = [rs.operand(o) for o in r["ops"]]
+                if all(calls_in(c, "Iterator::filter") for c in comps):
+                    cand = (bd, comps, bd.where(i, j))
+    if not cand:
+        ck.violation(rule, inst, nxt.path, f"{nxt.loc[0]}:{nxt.loc[1]}", expected="a (train, test) pair built from two filters over the mask", found="no such pair found")
+        return
+    bd, comps, site = cand
     problems = []
-    if not (ret[0] == "agg" and ret[1] == "tuple" and len(ret[2]) == 2):
-        problems.append(f"item is not a pair: {render(ret)[:200]}")
-    else:
-        pol = []
-        srcs = []
-        for comp in ret[2]:
-            fl = calls_in(comp, "Iterator::filter")
-            mp = calls_in(comp, "Iterator::map")
-            if len(fl) != 1 or len(mp) != 1:
-                problems.append(f"component `{render(comp)[:100]}` is not collect(map(filter(enumerate(..))))")
-                continue
-            src = fl[0][2][0]
-            srcs.append(src)
-            clo = fl[0][2][1]
-            if not (clo[0] == "agg" and clo[1].startswith("closure:")):
-                problems.append("filter predicate is not a closure literal")
-                continue
-            cb = prog.get(clo[1][len("closure:"):])
-            cr = Resolver(cb).local(0)
-            neg = False
-            while cr[0] == "un" and cr[1] == "Not":
-                neg = not neg
-                cr = cr[2]
-            # mask element indexed by the enumerate counter (component 0 of the closure's item argument)
-            if not (cr[0] == "idx" and cr[1][0] == "upvar" and cr[2][0] == "field" and cr[2][2] == "0" and cr[2][1][0] == "arg"):
-                problems.append(f"filter predicate `{render(cr)[:80]}` is not mask[counter]")
-                continue
-            maskcap = clo[2][0] if clo[2] else None
-            pol.append((neg, maskcap))
+    pol, srcs, masks = [], [], []
+    for comp in comps:
+        fl = calls_in(comp, "Iterator::filter")
+        mp = calls_in(comp, "Iterator::map")
+        if len(fl) != 1 or len(mp) > 1:
+            problems.append(f"component `{render(comp)[:100]}` is not collect([map](filter(..)))")
+            continue
+        srcs.append(fl[0][2][0])
+        clo = fl[0][2][1]
+        if not (clo[0] == "agg" and clo[1].startswith("closure:")):
+            problems.append("filter predicate is not a closure literal")
+            continue
+        cb = prog.get(clo[1][len("closure:"):])
+        cr = Resolver(cb).local(0)
+        neg = False
+        while cr[0] == "un" and cr[1] == "Not":
+            neg = not neg
+            cr = cr[2]
+        if not (cr[0] == "idx" and cr[1][0] == "upvar"):
+            problems.append(f"filter predicate `{render(cr)[:80]}` is not mask[position]")
+            continue
+        ix = cr[2]
+        # the looked-up position is the item itself (range form) or the counter of an enumerate item
+        form = "item" if ix[0] == "arg" else "counter" if (ix[0] == "field" and ix[2] == "0" and ix[1][0] == "arg") else None
+        if form is None:
+            problems.append(f"mask is indexed by `{render(ix)[:60]}`, not by the position being filtered")
+            continue
+        if mp:
             mc = mp[0][2][1]
             mb = prog.get(mc[1][len("closure:"):]) if mc[0] == "agg" and mc[1].startswith("closure:") else None
             mr = Resolver(mb).local(0) if mb else None
-            if not (mr and mr[0] == "field" and mr[2] == "0" and mr[1][0] == "arg"):
-                problems.append("map does not return the enumerate counter")
-        if len(pol) == 2:
-            if pol[0][1] != pol[1][1]:
-                problems.append("train and test filters read different masks")
-            if not (pol[0][0] is True and pol[1][0] is False):
-                problems.append(f"polarity (negated?) train={pol[0][0]} test={pol[1][0]}; expected train = !mask, test = mask")
-            if len(srcs) == 2 and srcs[0] != srcs[1]:
-                problems.append("train and test enumerate different sequences")
-            # the mask is the popped element
-            mk = pol[0][1]
-            if not (mk and mk[0] == "arg"):
-                problems.append(f"mask `{render(mk) if mk else None}` is not the closure's argument (the popped test mask)")
+            same = mr is not None and ((form == "counter" and mr[0] == "field" and mr[2] == "0" and mr[1][0] == "arg") or (form == "item" and mr[0] == "arg"))
+            if not same:
+                problems.append("the collected value is not the position looked up in the mask")
+        elif form != "item":
+            problems.append("enumerate items are collected without projecting the position")
+        cap = dict(zip([cb.upvars.get(i) for i in range(len(clo[2]))], clo[2]))
+        masks.append(cap.get(cr[1][1]))
+        pol.append(neg)
+    if len(pol) == 2:
+        if masks[0] != masks[1] or masks[0] is None:
+            problems.append("train and test filters read different masks")
+        if not (pol[0] is True and pol[1] is False):
+            problems.append(f"polarity (negated?) train={pol[0]} test={pol[1]}; expected train = !mask, test = mask")
+        if len(srcs) == 2 and srcs[0] != srcs[1]:
+            problems.append("train and test walk different sequences")
     if problems:
-        ck.violation(rule, inst, c0.path, site, expected="train = indices where !mask[i], test = indices where mask[i], same mask, train first",
+        ck.violation(rule, inst, bd.path, site, expected="train = positions where !mask[i], test = positions where mask[i], same mask, train first",
                      found="; ".join(problems))
     else:
-        ck.ok(rule, inst, c0.path, site, render(ret)[:200])
+        ck.ok(rule, inst, bd.path, site, "(" + render(comps[0])[:90] + ", ..)")
 
 
 RNG_DRAWS = ("SliceRandom::shuffle", "SliceRandom::choose", "Rng::gen", "Rng::gen_range", "RngCore::next_u64", "RngCore::next_u32",
